@@ -20,7 +20,7 @@ macro_rules! explore {
 		for s in [None, Some("t"), Some("ab+1.-")] {
 			ops.push(MOp::Set(SOp::Scheme(s.map(domains::b))));
 		}
-		let mut auths: Vec<Option<&str>> = vec![None, Some(""), Some("h"), Some("u@h:1"), Some("[::1]"), Some("h:")];
+		let mut auths: Vec<Option<&str>> = vec![None, Some(""), Some("h"), Some("u@h:1"), Some("[::1]"), Some("h:"), Some("u@[v1.x:y]")];
 		let mut pvals: Vec<&str> = vec!["", "/", "a", "/a", "//a", "a:b", "./a:b", "a/../b:c", "/.//a", "1:b", ":"];
 		let mut segs: Vec<&str> = vec!["", ".", "..", "a", "a:b", ":"];
 		if f == Family::Iri {
